@@ -466,8 +466,8 @@ def CntOK (v : View) : Prop :=
 /-- the top of the loop after `n` attempts -/
 def Rel (cfg : Cfg) (n : Nat) (v : View) : Prop :=
   v.mon.ops = n ∧ v.mon.bad = false ∧ v.mon.done = false ∧ v.flt = false ∧ v.sync = true ∧ v.stop = none ∧
-  v.stopOk = true ∧ CntOK v ∧ (1 ≤ n → v.mon.slept = true) ∧ (n = 0 → v.noExc = true ∧ v.mon.mustOp = false) ∧
-  (n = 0 ∨ n < cfg.maxAttempts)
+  v.stopOk = true ∧ CntOK v ∧ (1 ≤ n → v.mon.slept = true) ∧ (n = 0 → v.noExc = true ∧ v.mon.mustOp = false ∧ v.mon.granted = false) ∧
+  (n = 0 ∨ n < cfg.maxAttempts) ∧ GrantInv cfg v.mon
 
 /-- the failure of attempt `n` has been classified as `k`; the runner has not counted it yet -/
 def ClsA (k : EClass) (v : View) : Prop :=
@@ -867,7 +867,6 @@ theorem emitAbortedOnce_spec (cfg : Cfg) (tl : Bool) (u : View) (hsa : u.mon.saw
   all_goals (clear he)
   c03_chain
   c03_done
-  all_goals (trace_state; sorry)
 
 theorem handleSleepDecision_spec (cfg : Cfg) (tl : Bool) (n : Nat) (u : View) (act : SleepDecision)
     (hr : Ready cfg n u) (hdn : u.mon.decision = some act)
@@ -1090,9 +1089,10 @@ abbrev attemptPost (cfg : Cfg) (n : Nat) : PostCond (Option Nat) (.except Exn (.
        fun e w => ⌜Exc cfg e w⌝⟩
 
 theorem rel_of_slept (cfg : Cfg) (n : Nat) (v : View) (h : Slept cfg n v) : Rel cfg n v := by
-  simp only [Slept, Rel, CntOK] at *
-  simp_all
-  omega
+  simp only [Slept, Rel, CntOK, GrantInv] at *
+  obtain ⟨h1, h2, h3, h4, h5, h6, h7, h8, h9, h10, _, h12, _, h14, h15⟩ := h
+  exact ⟨h1, h4, h10, h5, h6, h7, h8, ⟨h14, h15⟩, fun _ => h9, fun h0 => by omega, Or.inr h3,
+    fun _ hm => by rw [h12, hm]⟩
 
 @[simp] theorem isRaise_iff (d : Decision) : d.isRaise = true ↔ d = .raise := by
   cases d <;> simp [Decision.isRaise]
@@ -1143,5 +1143,358 @@ theorem callExceptionPath_core (cfg : Cfg) (n : Nat) (u : View) (e : Exn) (hc : 
     | (refine decided2_of cfg n _ _ _ (by assumption) ?_ ?_ <;> simp_all +zetaDelta; done)
     | (cases ‹Decision› <;> c03_phase; done)
     | skip
+
+theorem not_exception_of_kise (e : Exn) (h : e.isKiSe = true) : e.isException = false := by
+  cases e <;> simp_all [Exn.isKiSe, Exn.isException]
+
+/-- the operation's exception propagates at once (abort, cancellation, nested exhaustion) -/
+theorem exc_propagate (cfg : Cfg) {w : World} {e : Exn} (hb : (view cfg w).mon.bad = false)
+    (hm : (view cfg w).mon.mustOp = false) (hgr : (view cfg w).mon.granted = false)
+    (hgo : e.isException = false ∨ e.isAbort = true ∨ e.isExhausted = true)
+    (hrb : e.isException = true → raisedBy isOp w.trace e = true) : Exc cfg e w := by
+  simp only [view_mon] at hb hm hgr
+  intro _
+  refine ⟨hb, hm, fun f h => Or.inl ?_, fun _ _ h1 h2 h3 => ?_, fun h => by simp [hgr] at h⟩
+  · subst h
+    exact raisedBy_any_of _ _ _ (hrb rfl)
+  · rcases hgo with h | h | h <;> simp_all
+
+/-- the `except` ladder around `func()` in call mode -/
+theorem callOpHandler_core (cfg : Cfg) (n : Nat) (u : View) (e : Exn) (hc : Core cfg n u) (hn : NoStrat u)
+    (hk : CntOK u) (hcl : u.mon.classified = false) (hd : u.mon.done = false)
+    (hsa : e.isAbort = true → u.mon.sawAbort = true) :
+    ⦃fun w => ⌜view cfg w = u⌝⦄ callOpHandler cfg n e
+    ⦃post⟨fun r w => ⌜(r = none → Rel cfg n (view cfg w)) ∧ (r ≠ none → Succ n (view cfg w))⌝,
+          fun e' w => ⌜(e.isException = true → raisedBy isOp w.trace e = true) → Exc cfg e' w⌝⟩⦄ := by
+  have h1 := fun v hok hb hg => handleAbortAttemptEnd_v cfg v hok hb hg n e
+  have h2 := fun u hsa hok hb hg hm => emitAbortedOnce_spec cfg false u hsa hok hb hg hm n
+  have h3 := fun u hc hn hk hcl hd hex => callExceptionPath_core cfg n u e hc hn hk hcl hd hex
+  mvcgen [callOpHandler, h1, h2, h3]
+  all_goals (clear h1 h2 h3)
+  c03_chain
+  all_goals (try subst_vars)
+  all_goals first
+    | (refine exc_propagate cfg ?_ ?_ ?_ ?_ (by assumption) <;>
+        first
+          | (simp_all [not_exception_of_kise]; done)
+          | (c03_phase; done)
+          | (left; rfl))
+    | skip
+
+/-- … with what the log says about where `e` came from -/
+theorem callOpHandler_spec (cfg : Cfg) (n : Nat) (u : View) (e : Exn) (hc : Core cfg n u) (hn : NoStrat u)
+    (hk : CntOK u) (hcl : u.mon.classified = false) (hd : u.mon.done = false)
+    (hsa : e.isAbort = true → u.mon.sawAbort = true) :
+    ⦃fun w => ⌜view cfg w = u ∧ (e.isException = true → raisedBy isOp w.trace e = true)⌝⦄
+    callOpHandler cfg n e ⦃attemptPost cfg n⦄ :=
+  triple_and_inv (callOpHandler_core cfg n u e hc hn hk hcl hd hsa)
+    (inv_of_ext (fun w => e.isException = true → raisedBy isOp w.trace e = true)
+      (fun w0 => callOpHandler_ext w0 cfg n e) (fun w w' h hi he => rbOp_ext e w w' h (hi he)))
+
+/-- result-based failure in call mode -/
+theorem callResultFailure_spec (cfg : Cfg) (n : Nat) (u : View) (x : Nat) (c : Classification)
+    (hc : Core cfg n u) (hn : NoStrat u) (hk : ClsA c.klass u) (hd : u.mon.done = false) :
+    ⦃fun w => ⌜view cfg w = u⌝⦄ callResultFailure cfg n x c ⦃attemptPost cfg n⦄ := by
+  have h1 := fun u hs hb hg => checkAbort_spec cfg false u hs hb hg n
+  have h2 := fun u hc hn hk hd => handleFailure_spec cfg false n u c hc hn hk hd .result none (some x)
+  have h3 := fun u d hd => failureOutcome_spec cfg false n u d hd (some c) none (some x) (some .result)
+  have h4 := fun v hok hb hg o => callAttemptEndFromOutcome_v cfg v hok hb hg n o
+  have h5 := fun u o rs fb hF => deliverCall_res_spec cfg n u o rs fb hF
+  mvcgen [callResultFailure, getRS, modifyAS, h1, h2, h3, h4, h5]
+  all_goals (clear h1 h2 h3 h4 h5)
+  c03_chain
+  all_goals first
+    | exact (fin_basic _ _ _ _ (by assumption)).1
+    | exact (fin_basic _ _ _ _ (by assumption)).2.1
+    | exact (fin_basic _ _ _ _ (by assumption)).2.2.1
+    | exact ⟨fun _ => rel_of_slept _ _ _ (by assumption), fun h => absurd rfl h⟩
+    | (refine decided2_of cfg n _ _ _ (by assumption) ?_ ?_ <;> simp_all +zetaDelta; done)
+    | (cases ‹Decision› <;> c03_phase; done)
+    | skip
+  all_goals (simp only [NoStrat] at hn; simp +zetaDelta only [view_as]; rw [‹view cfg _ = pollV cfg _›, pollV_noStrat cfg _ hn.1 hn.2.2.2.1]; exact hk)
+
+/-- after `func()` returned, call mode -/
+theorem callResultPath_spec (cfg : Cfg) (n : Nat) (u : View) (x : Nat) (hc : Core cfg n u) (hn : NoStrat u)
+    (hk : CntOK u) (hcl : u.mon.classified = false) (hd : u.mon.done = !cfg.resultClassifier) :
+    ⦃fun w => ⌜view cfg w = u⌝⦄ callResultPath cfg n x ⦃attemptPost cfg n⦄ := by
+  have h1 := fun u hc hn hk hcl hd => shouldClassifyResult_spec cfg n u hc hn hk hcl hd x
+  have h2 := fun v hok hb hg hm => handleSuccessAttemptEnd_v cfg false v hok hb hg hm n x
+  have h3 := fun u c hc hn hk hd => callResultFailure_spec cfg n u x c hc hn hk hd
+  mvcgen [callResultPath, h1, h2, h3]
+  all_goals (clear h1 h2 h3)
+  c03_chain
+
+theorem rel_pollV (cfg : Cfg) (n : Nat) (u : View) (h : Rel cfg n u) : Rel cfg n (pollV cfg u) := by
+  simp only [Rel, CntOK, GrantInv, pollV] at *
+  split <;> simp_all
+
+/-- one iteration of the loop in call mode -/
+theorem callAttempt_spec (cfg : Cfg) (n : Nat) (u : View) (hr : Rel cfg n u) (hlt : n < cfg.maxAttempts) :
+    ⦃fun w => ⌜view cfg w = u⌝⦄ callAttempt cfg (n + 1) ⦃attemptPost cfg (n + 1)⦄ := by
+  have h1 := fun u hs hb hg => checkAbort_spec cfg false u hs hb hg n
+  have h2 := fun v hok hb hg => callAttemptStart_v cfg v hok hb hg (n + 1)
+  have h3 := fun u hr => invokeOp_spec cfg n u hr hlt (n + 1)
+  have h4 := fun u e hc hn hk hcl hd hsa => callOpHandler_spec cfg (n + 1) u e hc hn hk hcl hd hsa
+  have h5 := fun u x hc hn hk hcl hd => callResultPath_spec cfg (n + 1) u x hc hn hk hcl hd
+  mvcgen [callAttempt, modifyAS, h1, h2, h3, h4, h5]
+  all_goals (clear h1 h2 h3 h4 h5)
+  c03_chain
+  all_goals (
+    have hp := rel_pollV cfg n _ hr
+    simp +zetaDelta only [view_as] at *
+    first
+      | (simp_all; done)
+      | (simp only [Rel] at hp; simp_all; done))
+
+/-- no attempt was made (`max_attempts = 0`) -/
+theorem exc_zero (cfg : Cfg) {w : World} {e : Exn} (hops : (cur cfg w.trace).ops = 0)
+    (hb : (cur cfg w.trace).bad = false) (hm : (cur cfg w.trace).mustOp = false)
+    (hgr : (cur cfg w.trace).granted = false)
+    (hstop : ∀ f, e = .libExhausted f → f.stop = .maxAttemptsGlobal ∧ cfg.maxAttempts = 0) : Exc cfg e w := by
+  intro _
+  refine ⟨hb, hm, fun f h => Or.inr ?_, fun h => by omega, fun h => by simp [hgr] at h⟩
+  obtain ⟨h1, h2⟩ := hstop f h
+  simp [h1, stopCond, h2]
+
+theorem raiseExhaustedCall_spec (cfg : Cfg) (u : View) (hr : Rel cfg 0 u) (h0 : cfg.maxAttempts = 0) :
+    ⦃fun w => ⌜view cfg w = u⌝⦄ raiseExhaustedCall cfg
+    ⦃post⟨fun _ _ => ⌜False⌝, fun e w => ⌜Exc cfg e w⌝⟩⦄ := by
+  have he := fun v hok hb hg hm k ex cs => emit_v cfg false v hok hb hg hm .maxAttemptsExceeded
+    (by simp [plainEv, isBreakerEv]) cfg.maxAttempts 0 k ex (some .maxAttemptsGlobal) cs none
+  simp only [Rel, CntOK, GrantInv] at hr
+  mvcgen [raiseExhaustedCall, emitMaxAttemptsExceeded, getRS, setStop, modifyRS, he]
+  all_goals (clear he)
+  c03_chain
+  all_goals first
+    | (refine exc_zero cfg ?_ ?_ ?_ ?_ ?_ <;> c03_simp; done)
+    | (exfalso; c03_simp; done)
+    | skip
+
+/-- what the verdict needs when a run returns a value -/
+def RetOK (cfg : Cfg) (w : World) : Prop :=
+  flt w.trace = false → ∃ n, Succ n (view cfg w)
+
+/-- the loop of `_run_sync_call`: `fuel` iterations left after `n` attempts -/
+theorem callLoop_spec (cfg : Cfg) : ∀ (fuel n : Nat) (u : View), Rel cfg n u → n + fuel = cfg.maxAttempts →
+    ⦃fun w => ⌜view cfg w = u⌝⦄ callLoop cfg fuel (n + 1)
+    ⦃post⟨fun _ w => ⌜RetOK cfg w⌝, fun e w => ⌜Exc cfg e w⌝⟩⦄ := by
+  intro fuel
+  induction fuel with
+  | zero =>
+    intro n u hr hn
+    have h0 : n = 0 := by
+      simp only [Rel] at hr
+      omega
+    subst h0
+    have h1 := raiseExhaustedCall_spec cfg u hr (by omega)
+    mvcgen [callLoop, h1]
+    all_goals (intro h; exact absurd h id)
+  | succ f ih =>
+    intro n u hr hn
+    have h1 := callAttempt_spec cfg n u hr (by omega)
+    mvcgen [callLoop, h1]
+    all_goals (clear h1)
+    · rename_i hpost
+      intro _
+      exact ⟨n + 1, hpost.2 (by simp)⟩
+    · intro s hrel _
+      exact ih (n + 1) (view cfg s) hrel (by omega) s rfl
+
+
+theorem initState_spec (cfg : Cfg) :
+    ⦃fun w => ⌜cur cfg w.trace = {} ∧ clk w.trace = {} ∧ flt w.trace = false⌝⦄ initState
+    ⦃post⟨fun _ w => ⌜Rel cfg 0 (view cfg w)⌝, fun _ _ => ⌜False⌝⟩⦄ := by
+  mvcgen [initState]
+  all_goals (simp_all +zetaDelta [Rel, CntOK, GrantInv, view, stopOkOf])
+
+/-- `Retry.call` -/
+theorem runCall_spec (cfg : Cfg) :
+    ⦃fun w => ⌜cur cfg w.trace = {} ∧ clk w.trace = {} ∧ flt w.trace = false⌝⦄ runCall cfg
+    ⦃post⟨fun _ w => ⌜RetOK cfg w⌝, fun e w => ⌜Exc cfg e w⌝⟩⦄ := by
+  have h1 := initState_spec cfg
+  have h2 := fun u hr => callLoop_spec cfg cfg.maxAttempts 0 u hr (by omega)
+  mvcgen [runCall, h1, h2]
+  all_goals (intros; assumption)
+
+/-! ### execute mode -/
+
+/-- what the verdict needs when `execute()` returns an outcome -/
+structure OutCore (cfg : Cfg) (o : Outcome) (m : St) (el : Nat) : Prop where
+  bad : m.bad = false
+  must : m.mustOp = false
+  stop : ∀ r, o.stop = some r → stopCond cfg m el r = true
+  give : 1 ≤ m.ops → m.done = false → o.ok = false ∧ o.stop.isSome = true
+  grant : m.granted = true → (cfg.metric = true → m.retryEv = true) ∧
+    (m.slept = true ∨ m.decision.isSome = true ∨ o.stop = none ∨ o.stop = some .aborted)
+
+def OutOK (cfg : Cfg) (o : Outcome) (w : World) : Prop :=
+  flt w.trace = false → OutCore cfg o (cur cfg w.trace) (clk w.trace).el
+
+/-- `_build_outcome` does not touch the world; the stop reason it reports is the recorded one -/
+theorem buildOutcome_spec (cfg : Cfg) (u : View) (ok : Bool) (value : Option Nat) (n : Nat) (ns : Option Nat) :
+    ⦃fun w => ⌜view cfg w = u⌝⦄ buildOutcome ok value n ns
+    ⦃post⟨fun o w => ⌜view cfg w = u ∧ o.ok = ok ∧ o.stop = if ok then none else u.stop⌝,
+          fun _ _ => ⌜False⌝⟩⦄ := by
+  mvcgen [buildOutcome, getRS, elapsed]
+  all_goals (subst_vars; simp [view])
+
+theorem outOK_of_stopped (cfg : Cfg) {w : World} {n : Nat} {r : StopReason} {o : Outcome}
+    (hS : Stopped cfg n r (view cfg w)) (ho : o.ok = false) (hs : o.stop = some r) : OutOK cfg o w := by
+  have hc := stopCond_of_view cfg w r hS.2.2.2.2.2.2.1 hS.2.2.2.2.2.2.2.1
+  simp only [Stopped, GrantInv, view_mon] at hS
+  intro _
+  refine ⟨hS.2.2.1, hS.2.2.2.2.1, fun r' h => ?_, fun _ _ => ⟨ho, by simp [hs]⟩, fun hg => ⟨hS.2.2.2.2.2.2.2.2.2.1 hg, ?_⟩⟩
+  · rw [hs] at h; cases h; exact hc
+  · rcases hS.2.2.2.2.2.2.2.2.2.2 hg with h | h
+    · exact Or.inl h
+    · exact Or.inr (Or.inl h)
+
+theorem outOK_of_succ (cfg : Cfg) {w : World} {n : Nat} {o : Outcome} (hS : Succ n (view cfg w))
+    (hs : o.stop = none) : OutOK cfg o w := by
+  simp only [Succ, view_mon] at hS
+  intro _
+  exact ⟨hS.2.2.1, hS.2.2.2.2.1, fun r h => by simp [hs] at h, fun _ h => by simp [hS.2.2.2.2.2.1] at h,
+    fun h => by simp [hS.2.2.2.2.2.2.2.2] at h⟩
+
+
+/-- the run has been aborted (a poll answered True, or a callback raised `AbortRetryError`) -/
+def Ab (cfg : Cfg) (v : View) : Prop :=
+  v.mon.bad = false ∧ v.flt = false ∧ v.mon.mustOp = false ∧ v.stop = some .aborted ∧ v.stopOk = true ∧
+  v.mon.sawAbort = true ∧ GrantInv cfg v.mon
+
+theorem outOK_of_ab (cfg : Cfg) {w : World} {o : Outcome} (hA : Ab cfg (view cfg w)) (ho : o.ok = false)
+    (hs : o.stop = some .aborted) : OutOK cfg o w := by
+  simp only [Ab, GrantInv, view_mon] at hA
+  intro _
+  refine ⟨hA.1, hA.2.2.1, fun r h => ?_, fun _ _ => ⟨ho, by simp [hs]⟩,
+    fun hg => ⟨hA.2.2.2.2.2.2 hg, Or.inr (Or.inr (Or.inr hs))⟩⟩
+  rw [hs] at h; cases h
+  simp [stopCond, hA.2.2.2.2.2.1]
+
+/-- `emit` fails only with something that is not an `Exception` -/
+theorem emit_nonexc (cfg : Cfg) (tl : Bool) (ev : Event) (a s : Nat) (k : Option EClass) (e : Option Exn)
+    (st : Option StopReason) (c : Option Cause) (cl : Option Classification) :
+    ⦃fun _ => ⌜True⌝⦄ emit cfg tl ev a s k e st c cl
+    ⦃post⟨fun _ _ => ⌜True⌝, fun e' _ => ⌜e'.isException = false⌝⟩⦄ := by
+  mvcgen [emit, metricHook, askMetric, askLog, ask, swallowException, recordTimeline]
+  all_goals simp_all
+
+/-- conjunction of the exceptional posts of two triples for the same program -/
+theorem triple_and_exc {α : Type} {x : M α} {P : World → Prop} {Q : α → World → Prop}
+    {E1 E2 : Exn → World → Prop}
+    (h1 : ⦃fun w => ⌜P w⌝⦄ x ⦃post⟨fun a w => ⌜Q a w⌝, fun e w => ⌜E1 e w⌝⟩⦄)
+    (h2 : ⦃fun _ => ⌜True⌝⦄ x ⦃post⟨fun _ _ => ⌜True⌝, fun e w => ⌜E2 e w⌝⟩⦄) :
+    ⦃fun w => ⌜P w⌝⦄ x ⦃post⟨fun a w => ⌜Q a w⌝, fun e w => ⌜E1 e w ∧ E2 e w⌝⟩⦄ := by
+  apply triple_of_run
+  intro w hw
+  have a1 := adequacy h1 w hw
+  have a2 := adequacy h2 w trivial
+  split <;> simp_all
+
+theorem not_abort_of_not_exception (e : Exn) (h : e.isException = false) : e.isAbort = false := by
+  cases e <;> simp_all [Exn.isException, Exn.isAbort]
+
+macro_rules | `(tactic| c03_simp) => `(tactic|
+  simp_all +zetaDelta [Ab, Fin, Decided2, Ready, Slept, Decided, PreStop, plainEv, isBreakerEv, GrantInv, Strat, Gr, Refd,
+    Stopped, isFailure, pollV, stopCond, Succ, Core, NoStrat, CntOK, Rel, ClsA, ClsB, ClsC, bumpCount, view,
+    cur_cons, clk_cons, flt_cons, hookRaise, Clock.tick, isPrelude, step, classify, abortKind, abortRaise,
+    isAttemptHook, stopOkOf, raisedBy, isOp, lastOpExn])
+
+/-- how `check_abort` can fail, seen from `execute()`'s handlers -/
+def XAb (cfg : Cfg) (e : Exn) (w : World) : Prop :=
+  flt w.trace = true ∨ (e.isAbort = false ∧ e.isException = false ∧ Exc cfg e w) ∨
+  (e = .libAbort ∧ Ab cfg (view cfg w))
+
+theorem checkAbort_x (cfg : Cfg) (tl : Bool) (u : View) (hs : u.stop = none) (hb : u.mon.bad = false)
+    (hg : GrantInv cfg u.mon) (hf : u.flt = false) (a : Nat) :
+    ⦃fun w => ⌜view cfg w = u⌝⦄ checkAbort cfg tl a
+    ⦃post⟨fun _ w => ⌜view cfg w = pollV cfg u⌝, fun e w => ⌜XAb cfg e w⌝⟩⦄ := by
+  have he := fun v hok hb hg hm => triple_and_exc
+    (emit_v cfg tl v hok hb hg hm .aborted (by simp [plainEv, isBreakerEv]) a 0 none none (some .aborted) none none)
+    (emit_nonexc cfg tl .aborted a 0 none none (some .aborted) none none)
+  mvcgen [checkAbort, ask, setStop, modifyRS, he]
+  all_goals (clear he)
+  all_goals (try subst_vars)
+  all_goals first
+    | (refine Or.inl ?_; simp [flt_cons, hookRaise, isAttemptHook]; done)
+    | (intro hE hne; exact Or.inr (Or.inl ⟨not_abort_of_not_exception _ hne, hne, hE⟩))
+    | (refine Or.inr (Or.inl ⟨rfl, rfl, ?_⟩); c03_exc)
+    | (refine Or.inr (Or.inr ⟨rfl, ?_⟩); c03_simp; done)
+    | skip
+  c03_done
+
+
+/-- the run can be ended as ABORTED here -/
+def PreAb (cfg : Cfg) (v : View) : Prop :=
+  v.mon.sawAbort = true ∧ v.stopOk = true ∧ v.mon.bad = false ∧ GrantInv cfg v.mon ∧ v.mon.mustOp = false ∧
+  v.flt = false
+
+/-- an execute() attempt: the loop goes on, or an outcome is returned that satisfies the verdict -/
+abbrev xPost (cfg : Cfg) (P : World → Prop) : PostCond (Option Outcome) (.except Exn (.arg World .pure)) :=
+  post⟨fun r w => ⌜match r with
+                  | none => P w
+                  | some o => OutOK cfg o w⌝,
+       fun e w => ⌜Exc cfg e w⌝⟩
+
+/-- … where "the loop goes on" means: with the invariant, unless an attempt hook raised -/
+abbrev xPostG (cfg : Cfg) (n : Nat) : PostCond (Option Outcome) (.except Exn (.arg World .pure)) :=
+  xPost cfg (fun w => flt w.trace = false → Slept cfg n (view cfg w))
+
+theorem abortOutcome_spec (cfg : Cfg) (tl : Bool) (u : View) (hp : PreAb cfg u) (a : Nat) :
+    ⦃fun w => ⌜view cfg w = u⌝⦄ abortOutcome cfg tl a
+    ⦃post⟨fun o w => ⌜OutOK cfg o w⌝, fun e w => ⌜Exc cfg e w⌝⟩⦄ := by
+  have h1 := fun u hsa hok hb hg hm => emitAbortedOnce_spec cfg tl u hsa hok hb hg hm a
+  have h2 := fun u ok v n ns => buildOutcome_spec cfg u ok v n ns
+  simp only [PreAb] at hp
+  mvcgen [abortOutcome, h1, h2]
+  all_goals (clear h1 h2)
+  c03_chain
+  all_goals (refine outOK_of_ab cfg ?_ (by assumption) (by simp_all) ; simp_all [Ab])
+
+
+theorem execAbortExit_spec (cfg : Cfg) (tl : Bool) (u : View) (hp : PreAb cfg u) (a : Nat) (e : Exn)
+    (P : World → Prop) :
+    ⦃fun w => ⌜view cfg w = u⌝⦄ execAbortExit cfg tl a e ⦃xPost cfg P⦄ := by
+  have h1 := fun v hok hb hg => handleAbortAttemptEnd_v cfg v hok hb hg a e
+  have h2 := fun u hp n => abortOutcome_spec cfg tl u hp n
+  have hp' := hp
+  simp only [PreAb] at hp'
+  mvcgen [execAbortExit, h1, h2]
+  all_goals (clear h1 h2)
+  c03_chain
+
+
+theorem sawAbort_of_stopped (cfg : Cfg) (w : World) (n : Nat) (h : Stopped cfg n .aborted (view cfg w)) :
+    (view cfg w).mon.sawAbort = true := by
+  have := stopCond_of_view cfg w .aborted h.2.2.2.2.2.2.1 h.2.2.2.2.2.2.2.1
+  simpa [stopCond] using this
+
+/-- what follows the attempt's outcome in execute mode -/
+theorem deliverExecute_spec (cfg : Cfg) (tl : Bool) (n : Nat) (u : View) (o : AOutcome) (rs : RState)
+    (fr : Bool) (hF : Fin cfg n o u) :
+    ⦃fun w => ⌜view cfg w = u⌝⦄ deliverExecute cfg tl (determineAction o rs n fr) o ⦃xPostG cfg n⦄ := by
+  have h1 := fun u hp a => abortOutcome_spec cfg tl u hp a
+  have h2 := fun u ok v n ns => buildOutcome_spec cfg u ok v n ns
+  unfold determineAction
+  simp only [Fin] at hF
+  cases hdec : o.decision <;> cases fr <;> simp only [hdec] at hF ⊢ <;> mvcgen [deliverExecute, h1, h2]
+  all_goals (clear h1 h2)
+  all_goals (try subst_vars)
+  all_goals first
+    | (intro _; assumption)
+    | (split at hF <;> first
+        | contradiction
+        | (rename_i x r heq
+           obtain ⟨hv, hok, hst⟩ := ‹view cfg _ = view cfg _ ∧ _ ∧ _›
+           rw [← hv] at hF heq
+           exact outOK_of_stopped cfg hF.1 hok (by rw [hst, ← hv]; simpa using heq))
+        | (rename_i x r heq
+           obtain ⟨hS, _, _, _, hr⟩ := hF
+           have hr' := hr
+           subst hr'
+           have hsa := sawAbort_of_stopped cfg _ n hS
+           simp only [Stopped] at hS
+           simp only [PreAb]
+           simp_all))
 
 end Redress.Props.C03
